@@ -397,7 +397,17 @@ func cmdRandom(seed int64, nseq, maxlen int, path string) {
 		}
 		np := 1 + r.Intn(len(prios)) // priorities in use (small => many ties)
 		calls := make([]call, 0, n)
-		for i := 0; i < n; i++ {
+		if r.Intn(4) == 0 {
+			// fill profile: start from a queue holding many keys, then keep it full, so that Remove and
+			// replacing Push hit inner nodes of a heap three to four levels deep
+			nk = 10 + r.Intn(len(keys)-9)
+			pushW = 45 + r.Intn(20)
+			for _, k := range r.Perm(nk) {
+				calls = append(calls, call{kind: 'P', via: 'h', key: k, prio: prios[r.Intn(np)], susp: r.Intn(4) == 0, id: nextID})
+				nextID++
+			}
+		}
+		for i := len(calls); i < n; i++ {
 			x := r.Intn(100)
 			switch {
 			case x < pushW:
